@@ -1,6 +1,6 @@
-SPECIFICATION KleeneSpec
+SPECIFICATION BigSpec
 CONSTANTS
   LimbDigits = 4
   N = 0
-INVARIANT Kleene
+INVARIANTS Laws W8Agree Kleene
 CHECK_DEADLOCK FALSE
